@@ -1049,6 +1049,12 @@ def fam_hex(rng):
         out.append({"kind": "hex", "op": "from_hex", "s": s})
     for s in ("", "0", good[:63], good + "0", good + good, " " + good[:63], good[:63] + " ", "0x" + good[:62]):
         out.append({"kind": "hex", "op": "from_hex", "s": s})
+    # a valid 64-digit string with something around it (lenient parsers: trimming, radix prefixes, signs, separators)
+    for pre, post in (("", "\n"), ("", "\r\n"), (" ", ""), ("", " "), ("\t", "\t"), ("\u00a0", ""), ("", "\u2028"), ("", "\u3000"),
+                      ("0x", ""), ("0X", ""), ("#", ""), ("+", ""), ("-", ""), ("x", ""), ("", "h"), ("\"", "\""), ("", "\0"),
+                      ("blake3:", ""), ("", ";")):
+        out.append({"kind": "hex", "op": "from_hex", "s": pre + good + post})
+        out.append({"kind": "hex", "op": "from_hex", "s": pre + good.upper() + post})
     for pos in (0, 1, 31, 32, 62, 63):
         for b in range(256):
             raw = bytearray(good.encode())
